@@ -68,7 +68,9 @@ func init() {
 	if n > 16 {
 		n = 16
 	}
-	sinstr := []instrSpec{{File: "terminfo/terminfo.go", Time: true}, {File: "tscreen.go", Sched: true}, {File: "screen.go", Sched: true}, {File: "simulation.go", Sched: true}}
+	sinstr := []instrSpec{{File: "terminfo/terminfo.go", Time: true}, {File: "tscreen.go", Sched: true}, {File: "screen.go", Sched: true}, {File: "simulation.go", Sched: true},
+		{File: "key.go", Time: true}, {File: "mouse.go", Time: true}, {File: "event.go", Time: true}, {File: "resize.go", Time: true}, {File: "interrupt.go", Time: true}, {File: "paste.go", Time: true}, {File: "focus.go", Time: true}, {File: "errors.go", Time: true}}
+	reg(&spec{ID: "C05", Pkg: "./harness/conc", Level: "model_checking", ShardsQ: n, ShardsT: n, DeadQ: 240, DeadT: 2400, Args: []string{"-prop", "C05"}, InstrFiles: sinstr})
 	reg(&spec{ID: "C06", Pkg: "./harness/conc", Level: "model_checking", ShardsQ: n, ShardsT: n, DeadQ: 240, DeadT: 2400, Args: []string{"-prop", "C06"}, InstrFiles: sinstr})
 	reg(&spec{ID: "C07", Pkg: "./harness/c07", Level: "exploration", ShardsQ: n, ShardsT: n, DeadQ: 240, DeadT: 1800})
 	reg(&spec{ID: "C08", Pkg: "./harness/c08", Level: "model_checking", ShardsQ: n, ShardsT: n, DeadQ: 150, DeadT: 1500})
